@@ -1,10 +1,30 @@
+/-
+  PrtpyProofs.ILPProofs — C17: the integer-programming partitioner (`partitioning/integer_programming.py`,
+  model `Prtpy.ILP`).  The MIP solver is trusted to return an optimal point of the formulation; everything
+  here is about the formulation (rows, objective row) and the read-back of the solver's answer.
+
+  Main results (all in `Prtpy.ILPProofs`):
+  1. `rows_iff_feasible` (`rows_iff_feasible'` : `satisfies s p = feasible s p` for `0 < k`, no other hypothesis):
+     the linear rows say exactly "each item `copies[i]` times, weighted sums ascending, caller constraints".
+     Key evaluations: `dot_unit`, `dot_binSumExpr`, `dot_itemRow`, linearity `dot_addV`/`dot_negV`/`dot_sumV`.
+  2. `objective_is_documented` (`objValue_eq_docValue`, `docValue_unit`).
+  3. `decode_copies`, `decode_copies_feasible`, `decode_isPartition`, `decodeRaw_lists` (the bins literally),
+     `count_binOf`, `count_bin_nodup`, `count_total_nodup`.
+  4. `result_order`: for a feasible point and positive weights `decode = decodeRaw` in *both* branches of fix F4
+     (the stable sort moves nothing because equal positive weights make the raw sums ascending already).
+  5. `mem_compositions`, `mem_allPoints`, `ilpBest_spec`, `ilpBest_none`, `ilpBest_rows`.
+  6. `unit_weights_wlog`, `equal_weights_scale`, `ilpBest_scale`, `argmin_scale`, `equal_weights_same_as_none`.
+  7. `solver_answer_spec`: the assembled statement of C17 for an optimal answer of the solver.
+
+  Rational arithmetic: `decide` does not evaluate `Rat`, so the concrete examples go through the Prop-level
+  reading `feasible_iff` and `norm_num`.
+-/
 import Prtpy
 import PrtpyProofs.Oracle
 import PrtpyProofs.Obj
 import PrtpyProofs.BinsOps
 import Mathlib.Tactic.Ring
 import Mathlib.Tactic.Linarith
-import Mathlib.Tactic.FieldSimp
 import Mathlib.Algebra.Order.Field.Rat
 import Mathlib.Tactic.NormNum
 import Mathlib.Data.List.Perm.Basic
@@ -1400,7 +1420,7 @@ theorem unit_weights_wlog (s : Spec) (hw : s.weights = List.replicate s.k 1)
 /-- non-vacuity, with the value computed: for the items `[11, 11, 11, 11, 22]` and two bins the formulation's
     optimum of the difference objective is `0` (the partition `33 | 33`), obtained from the DP oracle through
     `unit_weights_wlog` -/
-example : ilpBest exSpecU = some 0 := by
+theorem exSpecU_best : ilpBest exSpecU = some 0 := by
   cases h : ilpBest exSpecU with
   | none =>
     have := (ilpBest_none exSpecU).1 h exPointU
@@ -1604,4 +1624,86 @@ theorem solver_answer_spec {α : Type} (v : α → Nat) (s : Spec) (items : List
     rw [hdec]; exact decode_copies_feasible v s items p hv hc hf
   · exact (ilpBest_spec s _).2 ⟨⟨p, hf, rfl⟩, hmin⟩
 
+/-- an optimal point of the unit-weight example: `33 | 33` -/
+def exPointOpt : Point := [[1, 0], [1, 0], [1, 0], [0, 1], [0, 1]]
+
+theorem exPointOpt_feasible : feasible exSpecU exPointOpt = true := by
+  rw [feasible_iff]
+  refine ⟨by decide, by decide, ?_, by simp [exSpecU]⟩
+  intro b hb
+  have hb0 : b = 0 := by simp only [exSpecU] at hb; omega
+  subst hb0
+  have h0 : rawSum exSpecU exPointOpt 0 = 33 := by decide
+  have h1 : rawSum exSpecU exPointOpt 1 = 33 := by decide
+  simp only [wSum, h0, h1]
+  simp only [exSpecU, List.getD_cons_zero, List.getD_cons_succ, Nat.zero_add]
+  norm_num
+
+theorem exPointOpt_value : objValue exSpecU exPointOpt = 0 := by
+  rw [objValue_eq_docValue _ _ (by decide), docValue_unit (unitWeights_of_replicate rfl) exPointOpt_feasible]
+  have : (List.range exSpecU.k).map (rawSum exSpecU exPointOpt) = [33, 33] := by decide
+  rw [this]
+  have : exSpecU.obj.value [33, 33] false = 0 := by decide
+  rw [this]; norm_num
+
+/-- non-vacuity of the summary: all hypotheses hold for the point `33 | 33` of the unit-weight example (its
+    optimality comes from `exSpecU_best`, i.e. from the DP oracle through `unit_weights_wlog`) -/
+example := solver_answer_spec id exSpecU [11, 11, 11, 11, 22] exPointOpt rfl rfl rfl (by decide) (by decide)
+  (by rw [rows_iff_feasible' _ _ (by decide)]; exact exPointOpt_feasible)
+  (by
+    intro q hq
+    rw [exPointOpt_value]
+    exact ((ilpBest_rows exSpecU (by decide) 0).1 exSpecU_best).2 q hq)
+
+example : (decode id exSpecU [11, 11, 11, 11, 22] exPointOpt).lists = [[11, 11, 11], [11, 22]] := by decide
+
 end Prtpy.ILPProofs
+
+/-
+Axiom audit (output of `#print axioms` observed with `lake env lean`):
+
+#print axioms Prtpy.ILPProofs.rows_iff_feasible
+  'Prtpy.ILPProofs.rows_iff_feasible' depends on axioms: [propext, Classical.choice, Quot.sound]
+#print axioms Prtpy.ILPProofs.rows_iff_feasible'
+  'Prtpy.ILPProofs.rows_iff_feasible'' depends on axioms: [propext, Classical.choice, Quot.sound]
+#print axioms Prtpy.ILPProofs.objective_is_documented
+  'Prtpy.ILPProofs.objective_is_documented' depends on axioms: [propext, Classical.choice, Quot.sound]
+#print axioms Prtpy.ILPProofs.objValue_eq_docValue
+  'Prtpy.ILPProofs.objValue_eq_docValue' depends on axioms: [propext, Classical.choice, Quot.sound]
+#print axioms Prtpy.ILPProofs.docValue_unit
+  'Prtpy.ILPProofs.docValue_unit' depends on axioms: [propext, Classical.choice, Quot.sound]
+#print axioms Prtpy.ILPProofs.decode_copies
+  'Prtpy.ILPProofs.decode_copies' depends on axioms: [propext, Classical.choice, Quot.sound]
+#print axioms Prtpy.ILPProofs.decode_copies_feasible
+  'Prtpy.ILPProofs.decode_copies_feasible' depends on axioms: [propext, Classical.choice, Quot.sound]
+#print axioms Prtpy.ILPProofs.decode_isPartition
+  'Prtpy.ILPProofs.decode_isPartition' depends on axioms: [propext, Classical.choice, Quot.sound]
+#print axioms Prtpy.ILPProofs.count_bin_nodup
+  'Prtpy.ILPProofs.count_bin_nodup' depends on axioms: [propext, Classical.choice, Quot.sound]
+#print axioms Prtpy.ILPProofs.count_total_nodup
+  'Prtpy.ILPProofs.count_total_nodup' depends on axioms: [propext, Classical.choice, Quot.sound]
+#print axioms Prtpy.ILPProofs.result_order
+  'Prtpy.ILPProofs.result_order' depends on axioms: [propext, Classical.choice, Quot.sound]
+#print axioms Prtpy.ILPProofs.mem_compositions
+  'Prtpy.ILPProofs.mem_compositions' depends on axioms: [propext, Classical.choice, Quot.sound]
+#print axioms Prtpy.ILPProofs.mem_allPoints
+  'Prtpy.ILPProofs.mem_allPoints' depends on axioms: [propext, Classical.choice, Quot.sound]
+#print axioms Prtpy.ILPProofs.ilpBest_spec
+  'Prtpy.ILPProofs.ilpBest_spec' depends on axioms: [propext, Classical.choice, Quot.sound]
+#print axioms Prtpy.ILPProofs.ilpBest_none
+  'Prtpy.ILPProofs.ilpBest_none' depends on axioms: [propext, Classical.choice, Quot.sound]
+#print axioms Prtpy.ILPProofs.ilpBest_rows
+  'Prtpy.ILPProofs.ilpBest_rows' depends on axioms: [propext, Classical.choice, Quot.sound]
+#print axioms Prtpy.ILPProofs.unit_weights_wlog
+  'Prtpy.ILPProofs.unit_weights_wlog' depends on axioms: [propext, Classical.choice, Quot.sound]
+#print axioms Prtpy.ILPProofs.equal_weights_scale
+  'Prtpy.ILPProofs.equal_weights_scale' depends on axioms: [propext, Classical.choice, Quot.sound]
+#print axioms Prtpy.ILPProofs.ilpBest_scale
+  'Prtpy.ILPProofs.ilpBest_scale' depends on axioms: [propext, Classical.choice, Quot.sound]
+#print axioms Prtpy.ILPProofs.argmin_scale
+  'Prtpy.ILPProofs.argmin_scale' depends on axioms: [propext, Classical.choice, Quot.sound]
+#print axioms Prtpy.ILPProofs.equal_weights_same_as_none
+  'Prtpy.ILPProofs.equal_weights_same_as_none' depends on axioms: [propext, Classical.choice, Quot.sound]
+#print axioms Prtpy.ILPProofs.solver_answer_spec
+  'Prtpy.ILPProofs.solver_answer_spec' depends on axioms: [propext, Classical.choice, Quot.sound]
+-/
